@@ -103,9 +103,10 @@ func (s *scanner) Length() uint {
 		}
 
 		if lex.Type() == lexeme.EndTop {
-			// Found character after the end of the schema and spaces. Ex: char
-			// "s" in "{} some text".
-			length = uint(lex.End()) - 1
+			// Found character after the end of the JSON and spaces. Ex: char
+			// "s" in "{} some text". The lexeme points at that character, so its
+			// index is the number of bytes before it.
+			length = uint(lex.End())
 			break
 		}
 		length = uint(lex.End()) + 1
